@@ -89,35 +89,13 @@ fn top_cap(probe: &str) -> Option<usize> {
     digits.parse().ok()
 }
 
-/// The same sequence as another implementation might have encoded it: the last item carries its real offset and is followed by
-/// a terminating zero slot (the library itself always leaves the `MAX` marker on the last item). `probe` is the probe string of
-/// `state` (`ok:v=<as_bytes len>:z=<size()>:…`). `None` when the vector is empty or there is no room for the extra slot.
+/// `shape::terminate_chain` on a state whose probe string (`ok:v=<as_bytes len>:z=<size()>:…`) is known
 fn terminate_chain(state: &[u8], l: &crate::shape::LenS, os: usize, slack: usize, probe: &str) -> Option<Vec<u8>> {
     let mut it = probe.split(':');
     if it.next()? != "ok" { return None; }
     let v: usize = it.next()?.strip_prefix("v=")?.parse().ok()?;
     let z: usize = it.next()?.strip_prefix("z=")?.parse().ok()?;
-    let dec = |b: &[u8]| -> u128 {
-        let mut x = 0u128;
-        if l.be { for &c in b { x = (x << 8) | c as u128; } } else { for &c in b.iter().rev() { x = (x << 8) | c as u128; } }
-        x
-    };
-    let mut pos = 0usize;
-    loop {
-        if pos + l.size > state.len() { return None; }
-        let next = dec(&state[pos..pos + l.size]);
-        if next == 0 { return None; }
-        if next == l.max() { break; }
-        pos += next as usize;
-    }
-    // `slack` extra bytes (a multiple of the alignment) between the end of the last item and the terminating slot: also valid
-    if z < pos + os || z + slack + os > v || v > state.len() { return None; }
-    let off = (z + slack - pos) as u128;
-    if off >= l.max() { return None; }
-    let mut out = state.to_vec();
-    out[pos..pos + l.size].copy_from_slice(&l.encode(off));
-    out[z + slack..z + slack + l.size].copy_from_slice(&l.encode(0));
-    Some(out)
+    crate::shape::terminate_chain(state, l, os, slack, v, z)
 }
 
 fn gen_op(sh: &Shape, cur: &D, rng: &mut Rng, depth: usize) -> Op {
